@@ -8,6 +8,7 @@ mod known;
 mod model;
 mod ops;
 mod pool;
+mod replay;
 mod sched;
 mod schedx;
 mod worker;
@@ -78,6 +79,7 @@ fn main() {
             }
             println!("{} per iter {:.3} ms", mode, t.elapsed().as_secs_f64() * 1000.0 / n as f64);
         }
+        Some("replay") => std::process::exit(replay::run(args.get(2).map(|s| s.as_str()).unwrap_or(""))),
         Some("geometry") => println!("{:?}", walrus_rust::wal::verif::geometry()),
         _ => {
             eprintln!("usage: walmc worker | exec <job-json> | geometry");
